@@ -356,16 +356,11 @@ func (s *store) Find(_ context.Context, filter any, opts ...FindOptions) (Cursor
 	if skip > len(docs) {
 		skip = len(docs)
 	}
-	if limit == 0 {
-		limit = len(docs)
+	if limit == 0 || limit > len(docs)-skip {
+		limit = len(docs) - skip
 	}
 
-	limit = skip + limit
-	if limit > len(docs) {
-		limit = len(docs)
-	}
-
-	docs = docs[skip:limit]
+	docs = docs[skip : skip+limit]
 
 	return newCursor(docs), nil
 }
